@@ -35,3 +35,27 @@ package dialvia
 //@ property C03
 //@ requires d != nil && d.proxyURL != nil && d.dial != nil && ctx != nil
 //@ modifies **
+
+// (library and function-value calls of DialContextR: a successful dial yields a
+// connection; wrapping and buffering keep it; the dialer's own fields are not touched)
+//@ func type:dialvia.ContextDialerFunc as (ctx context.Context, network string, addr string) (conn net.Conn, err error)
+//@ trusted
+//@ modifies *
+//@ preserves HTTPProxyDialer.* url.URL.*
+//@ ensures err == nil ==> conn != nil
+//@ func tls.Client
+//@ trusted
+//@ pure
+//@ ensures result != nil && fresh(result)
+//@ func bufio.NewWriterSize
+//@ trusted
+//@ pure
+//@ ensures result != nil && fresh(result)
+//@ func (*http.Request).Write, (*bufio.Writer).Flush, maps.Copy
+//@ trusted
+//@ modifies *
+//@ preserves HTTPProxyDialer.* url.URL.*
+//@ func type:func(context.Context, *url.URL, string) (http.Header, error)
+//@ trusted
+//@ modifies *
+//@ preserves HTTPProxyDialer.* url.URL.*
